@@ -74,3 +74,38 @@ Proof.
   split; [apply px_state_ok|]. do 6 (split; [reflexivity|]). split; [discriminate|]. split; [discriminate|].
   eexists. split; reflexivity.
 Qed.
+
+(* ---------------------------------------------------------------- one proxy instance with the default cache *)
+From ZV Require Import C33.Cache.
+
+(* read (populates the cache) -> write -> read again through the SAME proxy, for the four modes: `true` is served from
+   the updated cache, `invalidates` and `false` go back to the server, `const` keeps the first value *)
+Definition px_read_write_read (pname : bytes) (t : ty) (e : emits) (v : val) : pres * pres :=
+  let p := mkp pname t ARW e false false in
+  let '(r0, _, root0, c0) := cached_get px_bh px_root px_path px_d p CNone in
+  let '(_, ef, root1) := proxy_set px_bh root0 px_path px_d p v in
+  let c1 := fold_left (cache_apply px_d px_path) (ef_signals ef) c0 in
+  let '(r2, _, _, _) := cached_get px_bh root1 px_path px_d p c1 in
+  (r0, r2).
+
+Example ex_cached_modes :
+  snd (px_read_write_read (B "PTrue") TU ETrue (VU 8)) = POk [VU 8] /\
+  snd (px_read_write_read (B "PInval") TS EInval (VS (B "x"))) = POk [VS (B "x")] /\
+  (exists old, px_read_write_read (B "PConst") TU EConst (VU 2) = (POk [old], POk [old]) /\ old <> VU 2) /\
+  uncached px_d = [B "PVar"] /\
+  snd (px_read_write_read (B "PVar") TV EFalse (VV (VS (B "w")))) = POk [VV (VS (B "w"))].
+Proof. repeat split; try reflexivity. eexists. split; [reflexivity|discriminate]. Qed.
+
+(* the hypotheses of C33_cached_read_after_write are satisfiable (non-vacuity) *)
+Example ex_cached_theorem :
+  let p := mkp (B "PTrue") TU ARW ETrue false false in
+  let '(r1, ef, root') := proxy_set px_bh px_root px_path (in_desc px_i) p (VU 8) in
+  r1 = POk [] /\
+  fst (fst (fst (cached_get px_bh root' px_path (in_desc px_i) p
+                   (fold_left (cache_apply (in_desc px_i) px_path) (ef_signals ef) (COk [(B "PTrue", Some (VU 1))]))))) = POk [VU 8].
+Proof.
+  apply (cached_read_after_write px_bh px_root px_path px_i (mkp (B "PTrue") TU ARW ETrue false false) (VU 8)
+           [(B "PTrue", Some (VU 1))] px_state_ok); try reflexivity; try discriminate.
+  intros n x Hn. vm_compute in Hn. cbn [clook]. destruct (lbeq (B "PTrue") n) eqn:E; [|discriminate].
+  apply lbeq_true in E. subst n. discriminate.
+Qed.
